@@ -326,3 +326,17 @@ def syntax_pairs(items, final_newline=True):
         pairs.append((kind + ("+" if crlf else ""), "\n".join(f).encode("utf-8", "surrogateescape")))
     if not final_newline: pairs.append(("nofinal", True))
     return pairs
+
+def cycle_book(r, lead, cyc, extra_user=False):
+    """a cycle c0 -> c1 -> ... -> c(cyc-1) -> c0 reached through a chain l0 -> ... -> l(lead-1) -> c0 (lead may be 0);
+    extra_user adds one more recipe that uses c0"""
+    recs = []
+    for i in range(lead): recs.append(("l%d" % i, "l%d" % (i + 1) if i + 1 < lead else "c0"))
+    for i in range(cyc): recs.append(("c%d" % i, "c%d" % ((i + 1) % cyc)))
+    if extra_user: recs.append(("u", "c0"))
+    r.shuffle(recs)
+    items = []
+    for n, ing in recs:
+        items.append(("heading", n)); items.append(("entry", ing, number(r, True)))
+        if r.random() < 0.3: items.append(("entry", "salt", "1"))
+    return items
